@@ -3,7 +3,7 @@
   any other point of the object; distances are non-negative, zero for queries on the object,
   and 1-Lipschitz."
 
-  Property theorems only (helper lemmas live in `Lemmas/Closest.lean`).  All statements are
+  Property theorems only (helper lemmas live in `Lemmas/Closest.lean`, `Lemmas/Arc.lean`).  All statements are
   about the definitions regenerated from the repository by py2lean (`Lbg.Gen.*`).
   Suffixes: `_s` = segment (parameter range `[0,1]`), `_r` = ray (`[0,∞)`), `_infinite_*` =
   carrier line (any parameter).
@@ -21,7 +21,9 @@ import LbgVerif.Gen.Isect2
 import LbgVerif.Gen.Isect3
 import LbgVerif.Gen.Plane
 import LbgVerif.Gen.Line
+import LbgVerif.Gen.Arc
 import LbgVerif.Lemmas.Closest
+import LbgVerif.Lemmas.Arc
 import Mathlib.Tactic.Ring
 import Mathlib.Tactic.Linarith
 import Mathlib.Tactic.LinearCombination
@@ -670,5 +672,101 @@ example : closest_point2d_on_line2d_s (⟨5, 1⟩ : V2 ℚ) ⟨⟨3, 4⟩, ⟨0,
   decide +kernel
 /-- The unit-normal hypothesis is satisfiable. -/
 example : V3.normSq (⟨0, 0, 1⟩ : V3 ℚ) = 1 := by decide +kernel
+
+/-! ## Closest point on an arc (`Arc2D.closest_point` / `closest_point2d_on_arc2d`)
+
+  The code projects the query radially onto the carrier circle (`c + normalize(q − c)·r`); if the
+  arc is a full circle, or the radial point passes the arc's angular filter `_pt_in`, that point
+  is returned; otherwise the nearer end point (`p1` on ties, compared through `math.sqrt`).
+  Trigonometry stays abstract, so what can be proved without an angle/chord monotonicity law is:
+  which candidate is returned, that the result lies on the carrier circle, that the chosen end
+  point is the nearer one, and — for a full circle — minimality (reverse triangle inequality).
+  NOT PROVED (`_partial`): minimality over a proper arc, which needs the relation between
+  `acos`-angles and chord lengths that the abstract `MathOps` does not provide. -/
+
+/-- `q` lies on the carrier circle of the arc: `|q − c|² = r²`. -/
+def OnCircle2 (a : Arc2S α) (q : V2 α) : Prop := distSq2 q a.c = a.r * a.r
+
+/-- The radial projection `c + (q − c)/|q − c| · r` of the query onto the carrier circle. -/
+def arcRadial (M : MathOps α) (a : Arc2S α) (q : V2 α) : V2 α :=
+  ⟨a.c.x + (q.x - a.c.x) / M.sqrt (distSq2 q a.c) * a.r,
+   a.c.y + (q.y - a.c.y) / M.sqrt (distSq2 q a.c) * a.r⟩
+
+/-- If the radial projection passes the arc's angular filter (always, for a full circle), it is
+the result (`q ≠ c`, square-root law). -/
+theorem arc2_closest_point_radial (M : MathOps α) (a : Arc2S α) (q : V2 α)
+    (hsqrt : ∀ x, 0 ≤ x → M.sqrt x * M.sqrt x = x ∧ 0 ≤ M.sqrt x)
+    (hq : distSq2 q a.c ≠ 0) (hin : arc2_pt_in M a (arcRadial M a q) = true) :
+    arc2_closest_point M a q = arcRadial M a q := by
+  have hd := (hsqrt _ (Lemmas.dsq2_nonneg q a.c)).1
+  have hd0 : Lemmas.acD M a q ≠ 0 := fun h0 => hq (by
+    have : Lemmas.acD M a q * Lemmas.acD M a q = distSq2 q a.c := hd
+    rw [← this, h0, mul_zero])
+  rw [Lemmas.arc2_closest_point_eq]
+  have e : Lemmas.acRad M a q = arcRadial M a q := Lemmas.acRad_eq M a q hd0
+  rw [← e] at hin ⊢
+  exact Lemmas.arcClosest_of_in M a q hin
+
+/-- If the radial projection fails the filter, the result is an end point of the arc — the nearer
+one in squared Euclidean distance, `p1` on ties. -/
+theorem arc2_closest_point_end (M : MathOps α) (a : Arc2S α) (q : V2 α)
+    (hsqrt : ∀ x, 0 ≤ x → M.sqrt x * M.sqrt x = x ∧ 0 ≤ M.sqrt x)
+    (hq : distSq2 q a.c ≠ 0) (hout : ¬ arc2_pt_in M a (arcRadial M a q) = true) :
+    (arc2_closest_point M a q = arc2_p1 a ∨ arc2_closest_point M a q = arc2_p2 a) ∧
+      distSq2 (arc2_closest_point M a q) q ≤ distSq2 (arc2_p1 a) q ∧
+      distSq2 (arc2_closest_point M a q) q ≤ distSq2 (arc2_p2 a) q ∧
+      (distSq2 (arc2_p1 a) q ≤ distSq2 (arc2_p2 a) q → arc2_closest_point M a q = arc2_p1 a) := by
+  have hd := (hsqrt _ (Lemmas.dsq2_nonneg q a.c)).1
+  have hd0 : Lemmas.acD M a q ≠ 0 := fun h0 => hq (by
+    have : Lemmas.acD M a q * Lemmas.acD M a q = distSq2 q a.c := hd
+    rw [← this, h0, mul_zero])
+  have e : Lemmas.acRad M a q = arcRadial M a q := Lemmas.acRad_eq M a q hd0
+  rw [← e] at hout
+  rw [Lemmas.arc2_closest_point_eq, Lemmas.arcClosest_of_not_in M a q hout]
+  exact Lemmas.acEnd_nearer M hsqrt a q
+
+/-- On-object (carrier circle): for `q ≠ c`, with the square-root law and consistent cached
+end-point cosines/sines (`cos² + sin² = 1`, an invariant of `Arc2D`), the result lies on the
+carrier circle `|res − c|² = r²`. -/
+theorem arc2_closest_point_on_circle (M : MathOps α) (a : Arc2S α) (q : V2 α)
+    (hsqrt : ∀ x, 0 ≤ x → M.sqrt x * M.sqrt x = x ∧ 0 ≤ M.sqrt x)
+    (hq : distSq2 q a.c ≠ 0)
+    (h1 : a.cos_a1 * a.cos_a1 + a.sin_a1 * a.sin_a1 = 1)
+    (h2 : a.cos_a2 * a.cos_a2 + a.sin_a2 * a.sin_a2 = 1) :
+    OnCircle2 a (arc2_closest_point M a q) := by
+  have hd := (hsqrt _ (Lemmas.dsq2_nonneg q a.c)).1
+  have hd0 : Lemmas.acD M a q ≠ 0 := fun h0 => hq (by
+    have : Lemmas.acD M a q * Lemmas.acD M a q = distSq2 q a.c := hd
+    rw [← this, h0, mul_zero])
+  rw [Lemmas.arc2_closest_point_eq]
+  by_cases hin : arc2_pt_in M a (Lemmas.acRad M a q) = true
+  · rw [Lemmas.arcClosest_of_in M a q hin]
+    exact Lemmas.acRad_onCirc M a q hd hd0
+  · rw [Lemmas.arcClosest_of_not_in M a q hin]
+    exact Lemmas.acEnd_onCirc M a q h1 h2
+
+/-- Minimality for a full circle (reverse triangle inequality): with `r ≥ 0` and the square-root
+laws, no point of the circle is closer to the query than the result.  (Holds for `q = c` too,
+where the code returns `c` itself.)
+FULL statement for proper arcs (not proved, `_partial`): `distSq2 q res ≤ distSq2 q x` for every
+`x` on the circle with `arc2_pt_in M a x = true` or `x ∈ {p1, p2}`; this needs an angle/chord
+monotonicity law for `M.acos`. -/
+theorem arc2_closest_point_minimal_partial (M : MathOps α) (a : Arc2S α) (q : V2 α)
+    (hsqrt : ∀ x, 0 ≤ x → M.sqrt x * M.sqrt x = x ∧ 0 ≤ M.sqrt x)
+    (hc : arc2_is_circle M a = true) (hr : 0 ≤ a.r) (x : V2 α) (hx : OnCircle2 a x) :
+    distSq2 q (arc2_closest_point M a q) ≤ distSq2 q x := by
+  obtain ⟨hd, hdn⟩ := hsqrt _ (Lemmas.dsq2_nonneg q a.c)
+  have hc' : Lemmas.isCirc M a := by
+    unfold arc2_is_circle at hc; exact of_decide_eq_true hc
+  rw [Lemmas.arc2_closest_point_eq, Lemmas.arcClosest_of_circle M a q hc']
+  exact Lemmas.acRad_min M a q x hd hdn hr hx
+
+/-- Non-vacuity (ℚ, full circle of radius `1` about the origin, `√25 = 5` exact): the query
+`(3,4)` projects to `(3/5, 4/5)`. -/
+example :
+    arc2_closest_point
+        (⟨fun x => if x = 25 then 5 else 0, id, id, id, id, id, fun _ _ => 0, 3, id⟩ : MathOps ℚ)
+        ⟨⟨0, 0⟩, 1, 0, 6, 1, 0, 1, 0⟩ ⟨3, 4⟩ = ⟨3 / 5, 4 / 5⟩ := by
+  decide +kernel
 
 end Lbg.Props.C12
